@@ -29,12 +29,23 @@ def main(tier, seed, replay=None):
         cases.append(statsrun.gen_stats_case(rng, M, P, M + P + rng.randint(1, 8), scalar=("f32" if i % 5 == 0 else "f64"),
                                              weights=rng.choice(["none", "pos", "unit", "zeros", "zeros"]), quant=(8 if i % 2 else None),
                                              ctor=("new_parallel" if i % 3 == 0 else "new"), builder_made=(i % 4 == 1 and P <= M)))
+    # fits that end UNSUCCESSFULLY on a well-determined problem with a model that never fails: tolerances that cannot be met
+    # (NoImprovementPossible), no patience (LostPatience): "the fit failed => Err" must hold for every kind of failure
+    for i in range(16 if tier == "quick" else 200):
+        M, P = COMBOS[i % len(COMBOS)]
+        sc = "f32" if i % 4 == 0 else "f64"
+        zero = hx(0.0, sc)
+        cfg = [{"ftol": zero, "xtol": zero, "gtol": zero}, {"ftol": zero, "xtol": zero, "gtol": zero, "patience": 1000},
+               {"patience": 1}, {"ftol": zero, "xtol": zero}][i % 4]
+        cases.append(statsrun.gen_stats_case(rng, M, P, M + P + rng.randint(2, 8), scalar=sc, weights=rng.choice(["none", "pos"]),
+                                             noise=0.1, cfg=cfg, ctor=("new_parallel" if i % 3 == 0 else "new")))
     for i, c in enumerate(cases):
         c["id"] = i
     total_terms = 0
     relation = {"N<M+P": 0, "N=M+P": 0, "N>M+P": 0}
     out_hist = {}
     codes_hist = {}
+    term_hist = {}
     for profile, pr in (("dev", "Debug"), ("release", "Release")):
         binp = build_harness(profile)
         results = run_harness(binp, "scenario", cases, workdir, timeout_ms=20000, tag=profile)
@@ -56,6 +67,8 @@ def main(tier, seed, replay=None):
                 run.violation("problem construction failed", {"case": c, "result": r})
                 continue
             imp = statsrun.outcome(r)
+            tk = r["steps"][1]["v"]["termination"].split("(")[0].split(" ")[0].split("{")[0]
+            term_hist[tk] = term_hist.get(tk, 0) + 1
             out_hist[(profile, "ok" if imp >= 2 else "err")] = out_hist.get((profile, "ok" if imp >= 2 else "err"), 0) + 1
             oterms.append(statsrun.model_outcome_term(c, r, pr))
             oidx.append((c, r, imp))
@@ -104,7 +117,7 @@ def main(tier, seed, replay=None):
                 "checks on and off): outcome (Ok(dof) / Err / panic) compared with Model/Stats.fit_with_statistics_outcome, and for Ok: "
                 "degrees of freedom, weighted residuals, reduced chi^2, regression standard error against Model/Numeric.spec_stats in "
                 "exact arithmetic, weighted residuals against the final residuals of the fit" % (COMBOS,),
-        "relation_histogram": relation, "outcome_histogram": {"%s/%s" % k: v for k, v in out_hist.items()},
+        "relation_histogram": relation, "termination_histogram": term_hist, "outcome_histogram": {"%s/%s" % k: v for k, v in out_hist.items()},
         "value_code_histogram": {str(k): v for k, v in codes_hist.items()}, "value_checks": total_terms, "exhaustive": True})
     run.samples = [{"meta": c["meta"], "scalar": c["scalar"], "ctor": c["ctor"]} for c in cases[:3]]
     run.assumptions = ["try_inverse succeeds whenever the exact normal matrix is invertible and well-conditioned (otherwise the case is not compared)",
